@@ -2116,7 +2116,7 @@ func (c *Client) doSetup(
 			case medi.KeyMgmtMikey != nil:
 				mikeyMsg = medi.KeyMgmtMikey
 
-			case c.lastDescribeDesc.KeyMgmtMikey != nil:
+			case c.lastDescribeDesc != nil && c.lastDescribeDesc.KeyMgmtMikey != nil:
 				mikeyMsg = c.lastDescribeDesc.KeyMgmtMikey
 
 			default:
